@@ -4,7 +4,7 @@ cd /verif
 for p in ${@:-benign/*/patch_*.diff}; do
   git -C /repo apply /verif/$p || { echo "$p: does not apply"; continue; }
   line="$p:"
-  for c in C01 C04 C05 C06 C08 C09 C10 C11 C12 C13 C15 C16 C17; do
+  for c in C01 C04 C05 C06 C07 C08 C09 C10 C11 C12 C13 C15 C16 C17; do
     out=$(./check $c --tier quick 2>&1); e=$?
     if [ $e -ne 0 ]; then line="$line $c=exit$e"; echo "   $c: $(echo "$out" | grep -E '^VIOLATION|^UNDECIDED' | sed 's/replay=[^ ]* //' | head -2 | tr '\n' ' ' | cut -c1-300)"; fi
   done
